@@ -377,6 +377,15 @@ func genC16(t *rapid.T) any {
 		}
 	}
 	comment("c3")
+	if mode != "err" && rapid.IntRange(0, 5).Draw(t, "trailingcomment") == 0 {
+		// the statement may end inside a line comment: a line comment needs no terminator
+		last := len(c.Segs) - 1
+		if c.Segs[last].K == "d" && strings.HasSuffix(c.Segs[last].S, "\n") && !strings.HasPrefix(strings.TrimSpace(c.Segs[last].S), "/*") {
+			c.Segs[last].S = strings.TrimSuffix(c.Segs[last].S, "\n")
+		} else {
+			c.Segs = append(c.Segs, C16Seg{K: "d", S: rapid.SampledFrom([]string{" -- end $1", " # end $1", " // end $1", " --", " -- ", " #"}).Draw(t, "trailingtext")})
+		}
+	}
 	if mode == "err" {
 		c.Err = rapid.SampledFrom([]string{"missing", "unused", "zero"}).Draw(t, "errkind")
 		switch c.Err {
